@@ -130,7 +130,8 @@ def derived_guard_edges(body, base_edges, edge_ok=None, polarity=None, pred=None
     for l, defs in body._all_defs().items():
         if body.locals[l]['ty'] != 'bool' or l <= body.nargs:
             continue
-        if all(d[3] == [] for d in defs) and bool_local_switches(body, l):
+        if all(d[3] == [] for d in defs):
+            # locals without a switch of their own take part as intermediate values (`x = !y`, `x = y`)
             cands[l] = defs
     pols = (True, False) if polarity is None else (polarity,)
     done = set()
@@ -152,6 +153,14 @@ def derived_guard_edges(body, base_edges, edge_ok=None, polarity=None, pred=None
                         if rv[1][2] == T:
                             good = False
                             break
+                        continue
+                    if kind == 'a' and rv[0] == 'use' and is_place_op(rv[1]) and rv[1][1][1] == [] and (rv[1][1][0], T) in done:
+                        # a copy of another bool local whose being T already implies the guard
+                        nontrivial = True
+                        continue
+                    if kind == 'a' and rv[0] == 'un' and rv[1] == 'Not' and is_place_op(rv[2]) and rv[2][1][1] == [] and (rv[2][1][0], not T) in done:
+                        # the negation of a bool local whose being !T already implies the guard
+                        nontrivial = True
                         continue
                     if pred is None:
                         good = False
